@@ -23,6 +23,8 @@ def main():
     tier = os.environ.get("VERIF_TIER", "quick")
     if tier not in ("quick", "thorough"):
         tier = "quick"
+    from symex.env import preload
+    preload()  # every protocol-version module is loaded, as in a process with several gateways
     mod = importlib.import_module(f"harness.{a.prop.lower()}")
     from symex import run
     spec = mod.build(tier)
@@ -34,7 +36,8 @@ def main():
                            level_text=spec.get("level_text", ""),
                            assumptions=spec.get("assumptions", ()),
                            outside=spec.get("outside", ()), stubs=spec.get("stubs", ()),
-                           budget_s=spec.get("budget_s")))
+                           budget_s=spec.get("budget_s"),
+                           write_evidence=a.prop.upper() != "SELFTEST"))
 
 
 if __name__ == "__main__":
